@@ -3,19 +3,20 @@ CFG = dict(
     dirs=["Common", "C09"], gen=True,
     run_targets=["C09/Run.vo"], proof_targets=["C09/Props.vo"], props="C09/Props.v",
     gen_obligations=[
-        "Inst.gen_c09_spec: tx_insert locks the inserted row, tx_update/tx_delete lock all matching rows before the change loop and record undo before changing, rollback applies the log in reverse and always releases, every transactional call starts with the is_active check, apply_undo_entry adds B-tree entries only for columns that have a B-tree index",
+        "Inst.gen_c09_spec: tx_insert locks the inserted row, tx_update/tx_delete lock all matching rows before the change loop and record undo before changing, rollback applies the log in reverse and always releases, every transactional call starts with the is_active check, apply_undo_entry adds B-tree entries only for columns that have a B-tree index, tx_insert/tx_delete capture the undo's index entries for the system column `_id` as well, the expired-lock sweep prunes only the swept key from its owner's key list",
     ],
     crate="nvh_c09", shard=60,
     header=H + "From NV.Common Require Import LockTable.\nFrom NV.C09 Require Import Model Run.\nOpen Scope N_scope.",
-    kinds={"rel": ("c09_case", "check_rel"), "budget": ("c09_case", "check_budget")},
-    known_classes={0: "rollback-after-lock-expiry", 1: "ddl-in-open-tx", 2: "rollback-over-btree-budget"},
-    rule="seeded scripts of 0-4 interleaved transactions (tx_insert/tx_update/tx_delete, commit, rollback, reuse after end) with non-transactional insert/update/delete_rows, hash and B-tree index creation, and row-lock expiry through the clock hook, on a real RelationalEngine and on the Gallina model; after every call: full scan, every Eq/Lt/Ge query on both columns (index paths), lock holders, lock and transaction counts",
+    kinds={"rel": ("c09_case", "check_rel"), "idcol": ("c09_case", "check_idcol"), "budget": ("c09_case", "check_budget")},
+    known_classes={0: "rollback-after-lock-expiry", 1: "ddl-in-open-tx"},
+    rule="seeded scripts of 0-4 interleaved transactions (tx_insert/tx_update/tx_delete, commit, rollback, reuse after end) with non-transactional insert/update/delete_rows, hash and B-tree index creation, row-lock expiry through the clock hook and the expired-lock sweep at any point (including transactions that hold one timed-out and one fresh lock when the sweep runs), on a real RelationalEngine and on the Gallina model; after every call: full scan, every Eq/Lt/Ge query on both columns (index paths), lock holders, lock and transaction counts; kind `idcol`: the same with hash / B-tree indexes and conditions on the system column `_id` (queries on `_id` added)",
     trusted_base=COMMON_TB + [
         "guarded clock hook relational_engine::transaction::verif_clock (commit de86fb99) replaces wall-clock reads by an explicit `now`",
         "modelled, not verified: one table with two non-null Int columns; the slab as an append-only list with alive bits; hash / B-tree index entries as sets of (column, value, row id) (the id-list order is never observed: select sorts by id); DashMap/RwLock atomicity; transaction ids renumbered from a process-wide counter",
     ],
     assumptions=[
         "single-threaded interleavings of whole API calls (each call is one step); TransactionManager::cleanup_expired (drops expired transactions without undo) has no production caller and is outside the alphabet",
+        "the model's rows have the two ordinary columns only: cases with an index or a condition on the system column `_id` (kind `idcol`) are judged by the property oracle (index answers = scan filter, rollback restores rows, lock exclusion) on the implementation's observations only",
         "the model has no B-tree entry budget (max_btree_entries): cases that exhaust it (kind `budget`) are judged by the property oracle on the implementation's observations only",
         "float / NULL / string columns and the query planner beyond Eq/Lt/Ge/And are C04's subject, not modelled here",
     ],
